@@ -290,12 +290,14 @@ def gen_scenario(rng, dims=(1, 2, 3, 4, 5), fams=None, max_iters=600, refine=Non
     scn["params_how"] = "ctor" if u < 0.6 else ("assign" if u < 0.9 else "positional")
     u = rng.random()
     scn["m_type"] = "int" if u < 0.8 else ["np.int64", "np.int32", "np.intp", "np.uint8"][int(rng.integers(4))]
+    u = rng.random()
+    scn["num_types"] = None if u < 0.75 else ["np", "py", "np"][int(rng.integers(3))]     # (float32 parameters are not used: the method then computes in float32)
     return scn
 
 
 def short(scn):
     """Compact description for evidence samples."""
-    d = {k: scn[k] for k in ("N", "box", "r", "eps", "iters", "m", "refine", "holder", "params_how", "m_type") if k in scn}
+    d = {k: scn[k] for k in ("N", "box", "r", "eps", "iters", "m", "refine", "holder", "params_how", "m_type", "num_types") if k in scn}
     d["fam"] = scn["obj"]["fam"] if "obj" in scn else scn.get("bench")
     if "pattern" in scn:
         d["pattern"] = scn["pattern"]
